@@ -97,6 +97,18 @@ def synth(rng, tier="quick", route=None, **force):
     n_public = rng.choice([1, 1, 1, 2, 2, 3] if big else [1, 1, 2])
     topo = _connected_topology(rng, nsub, rng.choice([0.0, 0.2, 0.5]),
                                n_public)
+    if nsub >= 4 and (force.get("ring") or rng.random() < 0.2):
+        # ring with one or two entrances: subnets can be approached from
+        # either side, also "from behind"
+        N0 = nsub + 1
+        topo = [[1 if i == j else 0 for j in range(N0)] for i in range(N0)]
+        ring = list(range(1, N0))
+        rng.shuffle(ring)
+        for i, a in enumerate(ring):
+            b = ring[(i + 1) % len(ring)]
+            topo[a][b] = topo[b][a] = 1
+        for pub in rng.sample(ring, rng.choice([1, 2])):
+            topo[0][pub] = topo[pub][0] = 1
     if nsub >= 3 and rng.random() < 0.05 and not force.get("connected"):
         # valid but odd: one non-public subnet cut off from the rest
         cand = [s for s in range(1, nsub + 1) if topo[s][0] == 0]
@@ -108,6 +120,15 @@ def synth(rng, tier="quick", route=None, **force):
     oss = OS_NAMES[:rng.randint(1, 3)]
     srvs = SRV_NAMES[:rng.randint(1, 4)]
     procs = PROC_NAMES[:rng.randint(1, 3)]
+    if rng.random() < 0.15:
+        # names may be anything: the same word as a service and a process,
+        # or as an OS and a service, is a valid (if unusual) scenario
+        if rng.random() < 0.6:
+            procs[rng.randrange(len(procs))] = rng.choice(srvs)
+        else:
+            oss[rng.randrange(len(oss))] = rng.choice(srvs + procs)
+        procs = list(dict.fromkeys(procs))
+        oss = list(dict.fromkeys(oss))
     rng.shuffle(oss), rng.shuffle(srvs), rng.shuffle(procs)
     det = force.get("deterministic", False)
     exploits = {}
@@ -185,6 +206,14 @@ def synth(rng, tier="quick", route=None, **force):
                     "process_scan_cost": rng.choice(SCAN_COSTS)},
         sensitive=sensitive, hosts=hosts, firewall=firewall,
         step_limit=sl, bounds=bounds)
+
+
+def ring(rng, route=None):
+    """Ring of 5-7 subnets with one or two entrances and an open attack
+    path: deep subnets can be reached from either side."""
+    return synth(rng, "quick", route=route, nsub=rng.randint(5, 7),
+                 max_hosts=rng.randint(7, 10), ring=True, live=1.0,
+                 connected=True)
 
 
 def micro(rng, route=None):
